@@ -23,7 +23,7 @@ ASSUMPTIONS = ['pysam VariantFile / tabix are trusted', 'truth is only demanded 
                'positions >= 0 are queried (position -1 is an internal sentinel)']
 MIN_NONTRIVIAL = {'quick': 1500, 'thorough': 100000}
 REQUIRED_MONITORS = ['ret:getAllelesAt', 'ret:has_location', 'mode:eager', 'mode:lazy', 'mode:cache_write', 'mode:cache_read',
-                     'mode:cache_flag_without_lazy', 'history:cache_from_other_config', 'oracle:clean_sites', 'evicted_contig_revisited', 'tagger:runs', 'oracle:DA_compared']
+                     'mode:cache_flag_without_lazy', 'history:cache_from_other_config', 'oracle:clean_sites', 'evicted_contig_revisited', 'tagger:runs', 'oracle:DA_compared', 'fault:cache_close_failures']
 SHARD_TIMEOUT = {'quick': 600, 'thorough': 3600}
 
 
@@ -321,6 +321,55 @@ def run_case(case):
         run_mode('history:cache_from_other_config', lambda: AlleleResolver(gz5, **kwargs(dict(lazyLoad=True, use_cache=True))))
         if 'history:cache_from_other_config' in answers:
             acc.count('history:cache_from_other_config')
+        # fault history: the run that writes the cache hits "disk full" when the cache file is flushed (close() raises after a partial write);
+        # later runs must still answer like eager loading
+        gz6 = fresh_copy('cacheF')
+        from singlecellmultiomics.alleleTools import alleleTools as at_mod
+        import gzip as _gzip
+        fired = [0]
+
+        class _FaultyGzip:
+            def __getattr__(self_, name):
+                return getattr(_gzip, name)
+
+            def open(self_, path, mode='rb', *a, **k):
+                if 'w' not in mode:
+                    return _gzip.open(path, mode, *a, **k)
+                import builtins
+                raw = builtins.open(path, 'wb')
+                gzf = _gzip.GzipFile(fileobj=raw, mode='wb')
+                txt = io.TextIOWrapper(gzf)
+
+                class H:
+                    def write(s_, data):
+                        return txt.write(data)
+
+                    def __enter__(s_):
+                        return s_
+
+                    def __exit__(s_, *exc):
+                        s_.close()
+                        return False
+
+                    def close(s_):
+                        # the data reaches the disk only partially (whatever name the file has by now), then the flush fails
+                        txt.flush()
+                        gzf.close()
+                        raw.flush()
+                        size = raw.tell()
+                        raw.truncate(max(1, size // 2))
+                        raw.close()
+                        fired[0] += 1
+                        raise OSError(28, 'No space left on device (injected)')
+                return H()
+        old_gzip = at_mod.gzip
+        at_mod.gzip = _FaultyGzip()
+        try:
+            run_mode('cache_write_fault/run1', lambda: AlleleResolver(gz6, **kwargs(dict(lazyLoad=True, use_cache=True))))
+        finally:
+            at_mod.gzip = old_gzip
+        acc.count('fault:cache_close_failures', fired[0])
+        run_mode('cache_write_fault/run2', lambda: AlleleResolver(gz6, **kwargs(dict(lazyLoad=True, use_cache=True))))
         wit = {'config': cfg, 'vcf_rows': rows[:40], 'samples': samples, 'contigs': contigs}
         for label, e in errors.items():
             acc.violate('mode-raised:' + label.split('/')[0], f'{label} raised {e} ({cfg})', wit)
@@ -342,6 +391,8 @@ def run_case(case):
                         mech = 'use_cache-without-lazyLoad-never-loads'
                     elif label.startswith('history'):
                         mech = 'cache-reused-across-configurations'
+                    elif label.startswith('cache_write_fault'):
+                        mech = 'truncated-cache-file-served-after-failed-write'
                     else:
                         mech = 'modes-disagree:' + label.split('/')[0]
                     acc.violate(mech, f'getAllelesAt{q}: {label} -> {sorted(ans[q][0])} but eager -> {sorted(ref[q][0])} ({cfg})', dict(wit, query=q, mode=label))
